@@ -78,3 +78,17 @@ with all_local_items (L : store) (l : items) : bool :=
 (* exactly the complement of the driver's tag: the request goes online AND a link below a link the responder
    lacks was loaded locally before the first local miss *)
 Definition no_F1 (t : ltree) (L R : store) : bool := all_local_tree L t || no_F1_scan t L R.
+
+(* ---------- checks over the driver's cases (d_loader), for the registry ---------- *)
+(* the plan guard holds of every harvested plan *)
+Definition d_trie_ordered (c : dcase) : bool :=
+  match c with DE c => trie_ordered (ec_plan c) | _ => true end.
+(* the guards of C02_holds_guarded on a whole-stack case *)
+Definition e2e_guards (c : e2ecase) : bool :=
+  let L := store_of (ec_L c) in let R := store_of (ec_R c) in
+  wf_plan (ec_plan c) && trie_ordered (ec_plan c) &&
+  (match aget (root_cid (ec_plan c)) R with Some _ => true | None => false end) && no_F1 (ec_plan c) L R.
+(* MON02 sharpened by the theorem: inside the guards the implementation's outcome must be the reference's
+   (outside them: findings C02-F1 / C02-F2) *)
+Definition d_mon02_guarded (c : dcase) : bool :=
+  match c with DE c => negb (e2e_guards c) || e2e_mon c | _ => true end.
